@@ -181,11 +181,17 @@ async fn handle_raw_message(args: ListenArgs, buf: &[u8]) -> Option<Message> {
             }
         }
 
-        // An attacker could craft an incomplete message with the source address
-        // / port being resolved's, which would make resolved respond to itself
-        // here, but this is fine so long as (1) the response we send is valid
-        // and (2) we don't reply to a valid message which is a response.
-        Err(err) => err.id().map(Message::make_format_error_response),
+        // Do not respond to anything flagged as a response, even if it cannot
+        // be parsed: the QR bit is the top bit of the third octet, which can be
+        // read whenever it was sent.  Other unparseable messages get a format
+        // error, so long as they are long enough to hold an ID.
+        Err(err) => {
+            if buf.len() > 2 && buf[2] & 0b1000_0000 != 0 {
+                None
+            } else {
+                err.id().map(Message::make_format_error_response)
+            }
+        }
     }
 }
 
